@@ -294,6 +294,13 @@ pub fn wblock_cases(tier: Tier) -> Vec<Case> {
     if tier == Tier::Thorough {
         lens.extend([4095, 65536, 131073]);
     }
+    // every residue mod 16 around the places where the round counter 2n or the block count n crosses a byte boundary
+    // (n = 128: counter 256; n = 256) and around 1024 / 2048 bytes: lengths base-1 ..= base+16
+    for base in [1024usize, 2032, 2048, 4080] {
+        lens.extend(base - 1..=base + 16);
+    }
+    lens.sort();
+    lens.dedup();
     let mut v = Vec::new();
     for len in lens {
         let long = len > 8192;
